@@ -256,6 +256,8 @@ func runC13(c *Check) {
 	// ---- R9 / R10 (added after seeded round 3)
 	c.ruleToRequestEmptied("R9", a)
 	c.ruleSizeCoupledWithCounter("R10", a)
+	c.rulePendingForkGuardOnParent("R7")
+	c.ruleRemovedRangeIsCountedRange("R2", a.blocksRequested, a.pendingBlockSize)
 
 	// ---- R6: lockset for State
 	c.lockset("R6", "state", "State", "lock", c.structFields("state", "State", "lock"), []string{"state"}, nil, 60)
